@@ -30,7 +30,7 @@ use datafusion_expr::{
     Accumulator, AggregateUDFImpl, Documentation, GroupsAccumulator, Signature,
     Volatility,
     function::{AccumulatorArgs, StateFieldsArgs},
-    utils::format_state_name,
+    utils::{AggregateOrderSensitivity, format_state_name},
 };
 use datafusion_functions_aggregate_common::utils::GenericDistinctBuffer;
 use datafusion_functions_aggregate_common::{
@@ -84,6 +84,12 @@ impl VarianceSample {
 }
 
 impl AggregateUDFImpl for VarianceSample {
+    fn order_sensitivity(&self) -> AggregateOrderSensitivity {
+        // The result does not depend on the input order: never request the ORDER BY
+        // columns as extra arguments or a sort
+        AggregateOrderSensitivity::Insensitive
+    }
+
     fn name(&self) -> &str {
         "var"
     }
@@ -180,6 +186,12 @@ impl VariancePopulation {
 }
 
 impl AggregateUDFImpl for VariancePopulation {
+    fn order_sensitivity(&self) -> AggregateOrderSensitivity {
+        // The result does not depend on the input order: never request the ORDER BY
+        // columns as extra arguments or a sort
+        AggregateOrderSensitivity::Insensitive
+    }
+
     fn name(&self) -> &str {
         "var_pop"
     }
